@@ -1392,7 +1392,9 @@ class TemplateModel(object):
 
     def save_spike_clusters(self, spike_clusters):
         """Save the spike clusters."""
-        path = self._find_path('spike_clusters.npy', 'spikes.clusters.npy', multiple_ok=False)
+        # NOTE: same patterns as in _load_spike_clusters(), so that the file that was loaded is the one
+        # that is overwritten, including a labelled ALF file such as spikes.clusters.probe00.npy.
+        path = self._find_path('spike_clusters.npy', 'spikes.clusters*.npy', multiple_ok=False)
         logger.debug("Save spike clusters to `%s`.", path)
         np.save(path, spike_clusters)
 
